@@ -67,7 +67,7 @@ def storage_mut(ctx, fb, T):
 
 def const_cast(ctx, fb, T):
     R = 'C25.no-const-cast'
-    table = {(e['fn'], e['what']): e['reason'] for e in T.get('escape_hatches', [])}
+    table = RevTable({(e['fn'], e['what']): e['reason'] for e in T.get('escape_hatches', [])})
     n = 0
     nf = 0
     for cr in LIBS:
